@@ -386,3 +386,19 @@ package dotgit
 //gvc:  results ref err
 //gvc:  ensures tolerant: !is(err, ErrEmptyRefFile)
 //gvc:end
+
+// PackRefs (C14: paths come from validated names; C16: a reference being
+// packed is not lost): only what was listed as a loose reference is unlinked,
+// by the path of its own name, and a symbolic reference is neither written
+// into packed-refs (the format has no place for it) nor unlinked.
+//gvc:func (*DotGit).PackRefs
+//gvc:  props C14 C16
+//gvc:  theory int
+//gvc:  opt coarse
+//gvc:  opt frame args
+//gvc:  opt callees abstract
+//gvc:  loop 1 invariant pos: it1 >= 0
+//gvc:  loop 2 invariant pos: it2 >= 0
+//gvc:  sink WriteString requires [C16] hashref: ref != nil ==> ref.t == 1
+//gvc:  sink Remove#2 requires [C16] hashref: ref != nil ==> ref.t == 1
+//gvc:end
